@@ -9,7 +9,7 @@ META = {
     "bounds": {"quick": "ANY well-formed state of two disjoint lists over a pool of 5 nodes (arbitrary membership and order, stale tail pointers when "
                         "empty, keys -3..3), one operation with arbitrary arguments on either list, iterator at any position 0..len (len = past the "
                         "end) - the inductive step; plus all 2-operation sequences (either list) from any such state over 3 nodes",
-               "thorough": "as quick with 6 nodes for the step, 3-operation sequences over 3 nodes and 4-operation sequences from empty lists"},
+               "thorough": "as quick with 6 nodes for the step, 3-operation sequences over 3 nodes"},
     "outside": ["more than 6 nodes alive (the code's paths depend on first / middle / last / only, which 4 nodes already distinguish)",
                 "inserting a node that is already a member (property scope)"],
     "assumptions": ["start states are taken up to renaming of pool nodes (list 0 = nodes 0..len0-1 in order, list 1 = nodes N-1 downwards): the code uses node identity only through pointer equality", "well-formedness invariant: acyclic, disjoint, tail = last node when non-empty, off-list nodes have next == NULL; re-established after every operation (asserted)"],
@@ -21,7 +21,7 @@ def queries(tier, kf):
     if tier == "quick":
         cfg = [("step-n5", 5, 1, {"FIXED_WHICH": None}), ("seq2-n3", 3, 2, {})]
     else:
-        cfg = [("step-n6", 6, 1, {"FIXED_WHICH": None}), ("seq3-n3", 3, 3, {}), ("seq4-empty-n3", 3, 4, {"FROM_EMPTY": None})]
+        cfg = [("step-n6", 6, 1, {"FIXED_WHICH": None}), ("seq3-n3", 3, 3, {})]
     qs = []
     for name, nn, ns, extra in cfg:
         qs.append(Query("c09-" + name, "c09.c", "h_steps", units=U, defines=dict({"NN": nn, "NSTEPS": ns}, **extra), unwind=nn + 2, timeout=2400, mem_gb=12))
